@@ -174,6 +174,8 @@ pub fn run_dedupe(op: DedupeOp, config: DedupeConfig, log: &dyn Log) -> Result<(
         if dedupe_config.isolated_roots.is_empty() && c.isolate {
             dedupe_config.isolated_roots = c.root_paths();
         }
+        // The path patterns apply to the files as `group` has seen them
+        dedupe_config.root_aliases = c.root_aliases();
     }
 
     // The roots given on the command line must be in the same form as the reported paths,
